@@ -22,6 +22,11 @@ Data == <<
   Series(<< <<"__name__","h1_bucket">>, <<"job","api">>, <<"le","+Inf">> >>, [i \in 1..Span |-> Smp(i - 1, "f", 3 * i)]),
   Series(<< <<"__name__","h2_bucket">>, <<"job","api">>, <<"le","1">> >>, [i \in 1..Span |-> Smp(i - 1, "f", 2)]),
   Series(<< <<"__name__","h2_bucket">>, <<"job","api">>, <<"le","+Inf">> >>, [i \in 1..Span |-> Smp(i - 1, "f", 5)]),
+  \* a histogram and a plain series with a hole: present, stale at tick 3, absent until tick 7, present again -
+  \* some steps have no sample at all and are followed by steps with samples inside one batch of 10
+  Series(<< <<"__name__","h3_bucket">>, <<"le","1">> >>, [i \in 1..10 |-> Smp(IF i <= 4 THEN i - 1 ELSE i + 2, IF i = 4 THEN "s" ELSE "f", i)]),
+  Series(<< <<"__name__","h3_bucket">>, <<"le","+Inf">> >>, [i \in 1..10 |-> Smp(IF i <= 4 THEN i - 1 ELSE i + 2, IF i = 4 THEN "s" ELSE "f", 4 * i)]),
+  Series(<< <<"__name__","gap">>, <<"a","x">> >>, [i \in 1..10 |-> Smp(IF i <= 4 THEN i - 1 ELSE i + 2, IF i = 4 THEN "s" ELSE "f", 10 + i)]),
   Series(<< <<"__name__","r">>, <<"A","first">>, <<"a","x">>, <<"b","9">>, <<"zz","last">> >>, [i \in 1..Span |-> Smp(i - 1, "f", 1)]) >>
 
 MN == <<Sel(<<Re("__name__", "m|n", <<"m", "n">>)>>)>>
@@ -31,7 +36,18 @@ R == <<Sel(<<Metric("r")>>)>>
 BIG == <<Sel(<<Metric("big")>>)>>
 TINY == <<Sel(<<Metric("tiny")>>)>>
 F1(fn, p) == Over(p, LAMBDA c : Fn(fn, <<c>>))
+GAP == <<Sel(<<Metric("gap")>>)>>
+HQ3 == Join(<<NumS("0.5")>>, <<Sel(<<Metric("h3_bucket")>>)>>, LAMBDA a, b : Fn("histogram_quantile", <<a, b>>))
+TINYX == <<Sel(<<Metric("tiny"), Eq("a", "x")>>)>>
 Plans == <<
+  HQ3, Join(HQ3, TINYX, LAMBDA a, b : BinM("+", a, b, FALSE, "1:1", TRUE, <<>>, <<>>)),
+  Join(<<Sel(<<Metric("p9")>>), Fn("scalar", <<1>>)>>, HQ3, LAMBDA a, b : Fn("clamp_min", <<b, a>>)),
+  GAP, F1("abs", GAP), F1("timestamp", GAP), Over(GAP, LAMBDA c : NegN(c)), Over(GAP, LAMBDA c : Agg("sum", TRUE, <<>>, <<c>>)),
+  Join(<<Num(1)>>, GAP, LAMBDA a, b : Agg("topk", TRUE, <<>>, <<a, b>>)), Join(GAP, <<Fn("time", <<>>)>>, LAMBDA a, b : Bin("-", a, b)),
+  Join(GAP, TINYX, LAMBDA a, b : BinM("+", a, b, FALSE, "1:1", TRUE, <<"a">>, <<>>)),
+  Join(TINYX, GAP, LAMBDA a, b : BinM("*", a, b, FALSE, "N:1", TRUE, <<"a">>, <<>>)),
+  Join(GAP, <<Fn("time", <<>>)>>, LAMBDA a, b : Fn("clamp_max", <<a, b>>)), F1("scalar", GAP),
+  <<RFn("last_over_time", <<Metric("gap")>>, 1, 0, "none", 0)>>,
   MN, F1("abs", MN), F1("abs", MNX), Over(MN, LAMBDA c : NegN(c)), Join(MN, <<Num(1)>>, LAMBDA a, b : Bin("+", a, b)),
   Join(MN, <<Num(1)>>, LAMBDA a, b : Bin(">", a, b)), Join(MN, <<Num(1)>>, LAMBDA a, b : BinM(">", a, b, TRUE, "1:1", FALSE, <<>>, <<>>)),
   <<RFn("sum_over_time", <<Re("__name__", "m|n", <<"m", "n">>)>>, 2, 0, "none", 0)>>,
